@@ -1,6 +1,5 @@
 #!/bin/bash
-# re-evaluates every kept seed against its owning check (quick): detection regression test
-for d in /verif/seeded/C*-*/; do
-  id=$(basename $d); prop=$(python3 -c "import json;print(json.load(open('$d/meta.json'))['breaks_property'])")
-  /verif/seedeval.sh $d $id $prop 2>&1 | tail -1
-done
+# re-evaluates every kept seed against its owning check (quick): detection regression test.
+# Runs in experiment mode (each seed in its own scratch worktree, 4 at a time); /repo's working tree is not touched.
+export SEEDEVAL_ALT=1
+ls -d /verif/seeded/C*-*/ | xargs -P ${1:-4} -I{} sh -c 'd={}; id=$(basename $d); prop=$(python3 -c "import json;print(json.load(open(\"$d/meta.json\"))[\"breaks_property\"])"); /verif/seedeval.sh $d $id $prop 2>&1 | tail -1'
